@@ -1,4 +1,5 @@
 import SamplyModel.Lemmas.ChunkCache
+import SamplyModel.Lemmas.ChunkCacheCover
 import SamplyModel.Iface.C13
 /-!
 The byte-source oracle that the C13 model driver executes (`C13.src g`, the in-memory source of the harness
@@ -51,5 +52,32 @@ theorem src_ok (g : Gen) (hbad : g.badHi = 0) : SourceOk (fileSlice g 0 g.len) (
   have h1 : ¬ g.len < o + n := by omega
   have h2 : hitsBad g o n = false := by simp [hitsBad, hbad]
   simp [h1, h2]
+
+/-- the driver's source is monotone: it fails exactly on the requests that reach past the end or touch the
+bad range -/
+theorem src_mono (g : Gen) : SrcMono (src g) := by
+  intro o n o' n' h h1 h2
+  unfold src at h ⊢
+  by_cases hl : g.len < o + n
+  · simp [hl] at h
+  · simp only [hl, if_false] at h
+    by_cases hb : hitsBad g o n = true
+    · simp [hb] at h
+    · have hl' : ¬ g.len < o' + n' := by omega
+      have hb' : hitsBad g o' n' = false := by
+        cases hq : hitsBad g o' n' with
+        | false => rfl
+        | true =>
+          exfalso; apply hb
+          simp only [hitsBad, Bool.and_eq_true, decide_eq_true_eq] at hq ⊢
+          obtain ⟨⟨q1, q2⟩, q3⟩ := hq
+          refine ⟨⟨?_, ?_⟩, ?_⟩ <;> omega
+      simp [hl', hb']
+
+/-- in mode 0 the driver's source is the faithful one -/
+theorem srcMode_zero (g : Gen) : srcMode g 0 = src g := by
+  funext o n
+  unfold srcMode
+  cases src g o n <;> simp
 
 end C13
